@@ -224,6 +224,17 @@ def run_check(tier, seed):
                     api_fail += 1
                 if api_fail >= 3:
                     break
+        # ---- S4c "mix" programs: varn calls with many permuted segments, several interleaving nonblocking requests per wait
+        nmix = 120 if tier == 'thorough' else 40
+        mlines, mtags, mfail, _ = apicmp.run_programs(
+            V, exe, wd, ((apigen.gen_mix_program(rng, 'c01m_%d.nc' % k, n_), n_) for k in range(nmix) for n_ in [rng.choice([1, 1, 2, 3])]),
+            tier, 'C01:api-mix', 'multi-request program (varn segments / interleaving nonblocking requests) disagrees with the dataset specification',
+            tagprefix='mix') if api_fail < 3 else (0, {}, 0, 0)
+        api_lines += mlines
+        api_fail += mfail
+        for t, c in mtags.items():
+            tags[t] = tags.get(t, 0) + c
+        nprog += nmix
         V.cov['evaluations'] = n_unit + api_lines
         V.cov['distinct_nontrivial'] = len(distinct) + sum(1 for t in tags.values() if t)
         V.cov['traces_validated_against_impl'] = nprog
